@@ -131,6 +131,47 @@ theorem row_in_its_bucket {κ : Type} [DecidableEq κ] (rows : List (κ × Nat))
   simp only [List.mem_map, List.mem_filter, decide_eq_true_eq]
   exact ⟨r, ⟨h, rfl⟩, rfl⟩
 
+/-! ## DISTINCT and the set operators bucket by the same keys -/
+
+/-- DISTINCT (and UNION / EXCEPT / INTERSECT without ALL) keep, for every key that occurs, exactly one
+    row — the first one — and keep them in input order: no two different keys merged, no key twice -/
+theorem distinct_keys {κ ρ : Type} [DecidableEq κ] (rows : List (κ × ρ)) :
+    (keepFirst rows).map Prod.fst = firstOcc (rows.map Prod.fst) ∧
+    ((keepFirst rows).map Prod.fst).Nodup ∧ (keepFirst rows).Sublist rows := by
+  refine ⟨keepFirst_keys rows, ?_, keepFirst_sublist rows⟩
+  rw [keepFirst_keys]; exact firstOcc_nodup _
+
+theorem distinct_represents_every_key {κ ρ : Type} [DecidableEq κ] (rows : List (κ × ρ)) (r : κ × ρ) (h : r ∈ rows) :
+    r.1 ∈ (keepFirst rows).map Prod.fst := by
+  rw [keepFirst_keys, mem_firstOcc]; exact List.mem_map_of_mem h
+
+/-- UNION ALL is concatenation; UNION is DISTINCT of the concatenation -/
+theorem union_spec {κ ρ : Type} [DecidableEq κ] (a b : List (κ × ρ)) :
+    unionImpl true a b = a ++ b ∧ unionImpl false a b = keepFirst (a ++ b) := ⟨rfl, rfl⟩
+
+/-- EXCEPT ALL keeps exactly the rows of the left operand whose key does not occur on the right,
+    in order and with their multiplicities -/
+theorem except_all_mem_iff {κ ρ : Type} [DecidableEq κ] (a b : List (κ × ρ)) (r : κ × ρ) :
+    r ∈ exceptImpl true a b ↔ r ∈ a ∧ r.1 ∉ b.map Prod.fst := by
+  simp [exceptImpl, List.mem_filter]
+
+theorem except_all_sublist {κ ρ : Type} [DecidableEq κ] (a b : List (κ × ρ)) : (exceptImpl true a b).Sublist a := by
+  simp only [exceptImpl, if_true]; exact List.filter_sublist
+
+/-- INTERSECT ALL keeps exactly the rows of the left operand whose key occurs on the right -/
+theorem intersect_all_mem_iff {κ ρ : Type} [DecidableEq κ] (a b : List (κ × ρ)) (r : κ × ρ) :
+    r ∈ intersectImpl true a b ↔ r ∈ a ∧ r.1 ∈ b.map Prod.fst := by
+  simp [intersectImpl, List.mem_filter]
+
+/-- EXCEPT / INTERSECT without ALL: the keys of the result are the distinct keys of the ALL result -/
+theorem except_distinct_keys {κ ρ : Type} [DecidableEq κ] (a b : List (κ × ρ)) :
+    (exceptImpl false a b).map Prod.fst = firstOcc ((exceptImpl true a b).map Prod.fst) := by
+  simp only [exceptImpl, if_true]; exact keepFirst_keys _
+
+theorem intersect_distinct_keys {κ ρ : Type} [DecidableEq κ] (a b : List (κ × ρ)) :
+    (intersectImpl false a b).map Prod.fst = firstOcc ((intersectImpl true a b).map Prod.fst) := by
+  simp only [intersectImpl, if_true]; exact keepFirst_keys _
+
 /-! ## non-vacuity -/
 
 def exKT : KeyText := { itext := decText, ftext := fun _ => [] }
